@@ -95,4 +95,9 @@ theorem model_cpcca_full_reconstruction {n p q : ℕ} (X : XM.Mat n p 𝕜) (Y :
       = X.toMatrix :=
   XP.CpccaM.model_full_reconstruction X Y Q1 s Q2 sgn hsgn hQ
 
+/-- source obligations: the two score arrays given to a cross-set `inverse_transform` are never aligned with each other, and the
+`normalized` switch of `transform` divides by the norms stored at fit -/
+theorem src_fields_not_aligned_and_fitted_norms :
+    Gen.crossInverseAlignCalls = [] ∧ Gen.singleTransformNormalizedBody.head? = some "data2D = data2D / self.data['norms']" := by decide
+
 end C03
